@@ -49,8 +49,17 @@ def handle (line : String) : String :=
         let (x, y) := offsetRangeToLineRange nls a b; s!"{x}.{y}"
       let gl := (lns.zip (lns.drop 1)).map fun (a, b) => bytesToHex (getLines nls data a b)
       let model := s!"at={showNatList ats} ls={showNatList ls} rl={showList id rl} gl={showList id gl}"
-      -- spec on the implementation's output is evaluated only when the table is the content's real newline table
-      answer model
+      -- the statement on the implementation's output (the harness always sends the document's real newline table):
+      -- atOffset = 1 + newlines before the offset, lineStart = the scan of the specification
+      let wantAt := s!"at={showNatList (offs.map (lineOf data))}"
+      let wantLs := s!"ls={showNatList (lns.map fun l => lineStartSpec data l.toNat)}"
+      match fields impl with
+      | [a, l, _, _] =>
+        if locs != (Newlines.ofData data).locs || fs != data.length then answer model
+        else if a != wantAt then specFail model "atoffset"
+        else if l != wantLs then specFail model "linestart"
+        else answer model
+      | _ => badCase "impl nl"
     | _, _, _, _, _ => badCase "nl fields"
   -- chunk <locs> <fileSize> <ctx> <cands>
   | ["chunk", locs, fs, ctx, cands] =>
